@@ -36,10 +36,21 @@ func newBits(b *setz.Bits) *set {
 	s.Add = func(x uint) (bool, bool) { return b.Add(x), true }
 	s.Remove = func(x uint) (bool, bool) { return b.Remove(x), true }
 	s.Contains, s.Len, s.Cap, s.Grow, s.Range = b.Contains, b.Len, b.Cap, b.Grow, b.Range
+	early := b.All() // obtained when the wrapper is made (for the sets of a case: while still empty), ranged much later
 	s.All = func(f func(uint) bool) {
 		seq := b.All()
 		n := 0
 		seq(func(uint) bool { n++; return n < 2 }) // a first, interrupted pass over the same sequence value
+		if b.Cap() > 1<<22 { // sets with members around 2^31: every pass scans 2^25 words
+			early(f)
+			return
+		}
+		var a, e []uint
+		seq(func(v uint) bool { a = append(a, v); return true })
+		early(func(v uint) bool { e = append(e, v); return true })
+		if fmt.Sprint(a) != fmt.Sprint(e) && nestedErr == nil {
+			nestedErr = fmt.Errorf("an All() sequence obtained earlier (on the empty set) yields %v, a fresh one %v", e, a)
+		}
 		seq(f)
 	}
 	s.Iter = func() func() (uint, bool) {
